@@ -93,9 +93,7 @@ def run_order_gfa(
                 sys.exit(1)
 
     else:  # user did not give a
-        try:
-            assert set(components.keys()) == set(DEFAULT_CHROMOSOME)
-        except AssertionError:
+        if set(components.keys()) != set(DEFAULT_CHROMOSOME):
             logger.error(
                 f"chromosome order was not provided, so the default was taken, but the default did not match"
                 f" what was found in the graph, which is {','.join(sorted(components.keys()))}"
@@ -263,18 +261,14 @@ def decompose_and_order(graph, component, component_name, bo_start=0):
     degree_one = [x.id for x in scaffold_graph.nodes.values() if len(x.neighbors()) == 1]
     degree_two = [x.id for x in scaffold_graph.nodes.values() if len(x.neighbors()) == 2]
 
-    try:
-        assert len(degree_one) == 2
-    except AssertionError:
+    if len(degree_one) != 2:
         logger.warning(
             f"Error: In Chromosome {component_name}, we found more or less than two nodes with degree 1. Skipping this chromosome"
         )
         # hacky but for now maybe ok
         return None, None, None, None, None
 
-    try:
-        assert len(degree_two) == len(scaffold_graph) - 2
-    except AssertionError:
+    if len(degree_two) != len(scaffold_graph) - 2:
         logger.warning(
             f"Error: In Chromosome {component_name}, the number of nodes with degree 2 did not mach the expected number"
         )
